@@ -186,6 +186,11 @@ def _run_text(text):
     out['net'] = s['surfaceplant']['p']['NetkWhProduced']['value']
     out['heat'] = s['surfaceplant']['p']['HeatkWhProduced']['value']
     out['TotalRevenue'] = s['economics']['p']['TotalRevenue']['value']
+    # extensions: present (with their figures) or absent — part of the result too
+    ad, sd = s.get('addeconomics'), s.get('sdacgteconomics')
+    out['addon_npv'] = ad['p']['ProjectNPV']['value'] if ad else None
+    out['addon_capex'] = ad['p']['AddOnCAPEXTotal']['value'] if ad else None
+    out['sdac_lcod'] = sd['p']['LCOD_elec']['value'] if sd else None
     return {'ok': True, 'out': out}
 
 
@@ -204,10 +209,25 @@ def whole_runs(chk: core.Check, n_sets, n_variants):
         d = {}
         geo_read(f.read_text(encoding='utf-8', errors='replace'), d)
         sets.append((f.name, [(k, v) for k, v in d.items() if ',' not in v]))
+    # a file that uses both extensions (add-on block and S-DAC-GT) without the explicit switches: they are recognised by their lines wherever those stand
+    both = geo.base_params(2, 31, 4, L=8, n=1)
+    both.update({'Do S-DAC-GT Calculations': 'True', 'S-DAC-GT CAPEX': 1300, 'S-DAC-GT OPEX': 60, 'AddOn Nickname 1': 'x', 'AddOn CAPEX 1': 12, 'AddOn OPEX 1': 1,
+                 'AddOn Electricity Gained 1': 3000000.0, 'AddOn Heat Gained 1': 0, 'AddOn Profit Gained 1': 0.5})
+    sets.append(('both-extensions', [(k, str(v)) for k, v in both.items()]))
     for name, items in sets:
         plain = '\n'.join(f'{a}, {b}' for a, b in items) + '\n'
         jobs.append(plain)
         meta.append((name, 'plain', set(), plain))
+        if name == 'both-extensions':
+            # the S-DAC-GT lines before / after / around the (contiguous, ordered) add-on block
+            addon = [(a, b) for a, b in items if a.startswith('AddOn')]
+            sdac = [(a, b) for a, b in items if a.startswith('S-DAC-GT') or a.startswith('Do S-DAC-GT')]
+            rest = [(a, b) for a, b in items if (a, b) not in addon and (a, b) not in sdac]
+            for label, order in (('sdac-first', sdac + addon + rest), ('addon-first', addon + sdac + rest), ('sdac-around', sdac[:1] + rest[:5] + addon + sdac[1:] + rest[5:]),
+                                 ('extensions-last', rest + sdac + addon)):
+                text = '\n'.join(f'{a}, {b}' for a, b in order) + '\n'
+                jobs.append(text)
+                meta.append((name, f'order:{label}', {'extension-lines-' + label}, plain))
         for v in range(n_variants):
             text, tags = decorate(rng, items)
             jobs.append(text)
@@ -224,6 +244,18 @@ def whole_runs(chk: core.Check, n_sets, n_variants):
             meta.append((name, 'dup-last-wins', {'duplicate-later-governs'}, only_alt))
             jobs.append(f'{a}, {alt}\n' + plain)
             meta.append((name, 'dup-first-loses', {'duplicate-earlier-ignored'}, plain))
+    # list-form duplicates (`Gradients, a, b, c` given twice): the later line governs even when the two agree in their first element
+    seg = {k: v for k, v in geo.base_params(2, 1, 1, L=8, n=1).items() if k not in ('Gradient 1', 'Number of Segments')}
+    segtxt = geo.params_to_text({**seg, 'Number of Segments': 3})
+    later = 'Gradients, 50, 30, 30\nThicknesses, 1, 1, 100\n'
+    only_later = segtxt + later
+    jobs.append(only_later)
+    meta.append(('list-duplicates', 'dup-ref', {'dup-ref'}, only_later))
+    for label, first in (('same-first-element', 'Gradients, 50, 60, 60\n'), ('other-first-element', 'Gradients, 40, 60, 60\n')):
+        jobs.append(segtxt + first + later)
+        meta.append(('list-duplicates', f'dup-list:{label}', {'duplicate-list-form-' + label}, only_later))
+        jobs.append(first + segtxt + later)
+        meta.append(('list-duplicates', f'dup-list-early:{label}', {'duplicate-list-form-' + label}, only_later))
     res = geo.pmap(_run_text, jobs, chk.scratch)
     ref = {}
     for (name, kind, tags, reftext), text, r in zip(meta, jobs, res):
